@@ -2251,6 +2251,343 @@ def gen_hseq(repo):
 GENERATORS["HSeqGen"] = gen_hseq
 
 
+# ---- hrevolve.py: get_hopt_table (two storage levels: the class HRevolve passes cvect / wvect / rvect of length 2) ----
+# The tables opt[k][l][m] / optp[k][l][m] are the four fields of HRevSeq.tabs; an assignment is `hset`, a read `hget` (IndexError outside
+# the lists, as in Python for non-negative indices).  float('inf') is HRevSeq.Inf, `/ 2` of the product l * (l + 1) exact division.
+HOPT_PRE = ("lmax, cvect, wvect, rvect, ub, uf",
+            ["K = len(cvect)", "assert len(wvect) == len(rvect) == len(cvect)",
+             "opt = [[[float('inf')] * (cvect[i] + 1) for _ in range(lmax + 1)] for i in range(K)]",
+             "optp = [[[float('inf')] * (cvect[i] + 1) for _ in range(lmax + 1)] for i in range(K)]"])
+
+
+class TabTr:
+    VEC = {"cvect": "cvec2 c0 c1", "wvect": "cvec2 w0 w1", "rvect": "cvec2 r0 r1"}
+    NAMES = {"lmax": "lmax", "ub": "ub", "uf": "uf", "K": "2"}
+
+    def __init__(self):
+        self.names = dict(self.NAMES)
+        self.n = 0
+
+    def fresh(self):
+        self.n += 1
+        return "x%d_" % self.n
+
+    def z(self, e):
+        if isinstance(e, ast.Constant) and type(e.value) is int:
+            return str(e.value) if e.value >= 0 else "(%d)" % e.value
+        if isinstance(e, ast.Name) and e.id in self.names:
+            return self.names[e.id]
+        if isinstance(e, ast.Subscript) and isinstance(e.value, ast.Name) and e.value.id in self.VEC:
+            return "(%s %s)" % (self.VEC[e.value.id], self.z(e.slice))
+        if isinstance(e, ast.BinOp) and isinstance(e.op, (ast.Add, ast.Sub, ast.Mult)):
+            return "(%s %s %s)" % (self.z(e.left), {ast.Add: "+", ast.Sub: "-", ast.Mult: "*"}[type(e.op)], self.z(e.right))
+        if isinstance(e, ast.BinOp) and isinstance(e.op, ast.Div) and ast.unparse(e) == "l * (l + 1) / 2":
+            return "((l * (l + 1)) / 2)"
+        raise Untranslatable("integer expression " + ast.dump(e)[:100])
+
+    def is_cost(self, e):
+        return any(isinstance(n, ast.Name) and n.id in ("opt", "optp") for n in ast.walk(e))
+
+    def tab3(self, e):
+        if isinstance(e, ast.Subscript) and isinstance(e.value, ast.Subscript) and isinstance(e.value.value, ast.Subscript) and isinstance(e.value.value.value, ast.Name) \
+                and e.value.value.value.id in ("opt", "optp"):
+            return e.value.value.value.id == "optp", self.z(e.value.value.slice), self.z(e.value.slice), self.z(e.slice)
+        return None
+
+    def c(self, e, binds):
+        t3 = self.tab3(e)
+        if t3:
+            x = self.fresh()
+            binds.append("do %s <- hget %s T %s %s %s;" % (x, "true" if t3[0] else "false", t3[1], t3[2], t3[3]))
+            return x
+        if isinstance(e, ast.BinOp) and isinstance(e.op, ast.Add) and self.is_cost(e):
+            a = self.c(e.left, binds)
+            b = self.c(e.right, binds)
+            return "(cadd %s %s)" % (a, b)
+        if isinstance(e, ast.Call) and isinstance(e.func, ast.Name) and e.func.id == "min" and not e.keywords:
+            if len(e.args) == 2:
+                a = self.c(e.args[0], binds)
+                b = self.c(e.args[1], binds)
+                return "(cmin %s %s)" % (a, b)
+            if len(e.args) == 1:
+                return "(cmin_list %s Inf)" % self.clist(e.args[0], binds)
+        if self.is_cost(e):
+            raise Untranslatable("cost expression " + ast.dump(e)[:100])
+        return "(Fin %s)" % self.z(e)
+
+    def clist(self, e, binds):
+        """a non-empty list of costs: [x], a comprehension over range(1, l), or the concatenation of the two"""
+        if isinstance(e, ast.BinOp) and isinstance(e.op, ast.Add):
+            a = self.clist(e.left, binds)
+            b = self.clist(e.right, binds)
+            return "(%s ++ %s)" % (a, b)
+        if isinstance(e, ast.List) and len(e.elts) == 1:
+            return "[%s]" % self.c(e.elts[0], binds)
+        if isinstance(e, ast.ListComp) and len(e.generators) == 1 and not e.generators[0].ifs and isinstance(e.generators[0].target, ast.Name) \
+                and isinstance(e.generators[0].iter, ast.Call) and ast.unparse(e.generators[0].iter.func) == "range" and len(e.generators[0].iter.args) == 2:
+            j = e.generators[0].target.id
+            lo, hi = self.z(e.generators[0].iter.args[0]), self.z(e.generators[0].iter.args[1])
+            self.names[j] = j
+            inner = []
+            body = self.c(e.elt, inner)
+            del self.names[j]
+            x = self.fresh()
+            binds.append("do %s <- map_res (fun %s => %s Ok %s) (zrange %s %s);" % (x, j, " ".join(inner), body, lo, hi))
+            return x
+        raise Untranslatable("list of costs " + ast.dump(e)[:100])
+
+    def cond(self, e):
+        if isinstance(e, ast.BoolOp):
+            return "(%s)" % ({ast.And: " && ", ast.Or: " || "}[type(e.op)].join(self.cond(v) for v in e.values))
+        if isinstance(e, ast.Compare) and len(e.ops) == 1 and isinstance(e.ops[0], (ast.Eq, ast.Lt)):
+            return "(%s %s %s)" % (self.z(e.left), "=?" if isinstance(e.ops[0], ast.Eq) else "<?", self.z(e.comparators[0]))
+        raise Untranslatable("condition " + ast.dump(e)[:100])
+
+    def block(self, stmts, k):
+        if not stmts:
+            return k
+        s, rest = stmts[0], stmts[1:]
+        if isinstance(s, ast.Return):
+            if ast.unparse(s.value) != "(optp, opt)" or rest:
+                raise Untranslatable("return " + ast.unparse(s))
+            return "Ok T"
+        if isinstance(s, ast.Assign) and len(s.targets) == 1 and isinstance(s.targets[0], ast.Name) and s.targets[0].id == "mmax":
+            return "let mmax := %s in %s" % (self.z(s.value), self._with("mmax", lambda: self.block(rest, k)))
+        if isinstance(s, ast.Assign) and len(s.targets) == 1 and self.tab3(s.targets[0]):
+            t3 = self.tab3(s.targets[0])
+            binds = []
+            v = self.c(s.value, binds)
+            return " ".join(binds + ["do T <- hset %s T %s %s %s %s;" % ("true" if t3[0] else "false", t3[1], t3[2], t3[3], v), self.block(rest, k)])
+        if isinstance(s, ast.If) and not s.orelse and len(s.body) == 1 and isinstance(s.body[0], ast.Continue):
+            return "if %s then Ok T else (%s)" % (self.cond(s.test), self.block(rest, k))
+        if isinstance(s, ast.For) and not s.orelse and isinstance(s.target, ast.Name) and isinstance(s.iter, ast.Call) and ast.unparse(s.iter.func) == "range" and len(s.iter.args) in (1, 2):
+            lo = "0" if len(s.iter.args) == 1 else self.z(s.iter.args[0])
+            hi = self.z(s.iter.args[-1])
+            v = s.target.id
+            body = self._with(v, lambda: self.block(s.body, "Ok T"))
+            return "do T <- range_for %s %s T (fun %s T => %s); %s" % (lo, hi, v, body, self.block(rest, k))
+        raise Untranslatable("statement " + ast.dump(s)[:100])
+
+    def _with(self, v, f):
+        old = self.names.get(v)
+        self.names[v] = v
+        try:
+            return f()
+        finally:
+            if old is None:
+                self.names.pop(v, None)
+            else:
+                self.names[v] = old
+
+
+def gen_hopt(repo):
+    tree = ast.parse(open(os.path.join(repo, "checkpoint_schedules", "hrevolve_sequences", "hrevolve.py")).read())
+    fns = [n for n in tree.body if isinstance(n, ast.FunctionDef) and n.name == "get_hopt_table"]
+    if len(fns) != 1 or fns[0].decorator_list:
+        raise Untranslatable("def get_hopt_table")
+    body = _strip_doc(fns[0].body)
+    if ast.unparse(fns[0].args) != HOPT_PRE[0] or [ast.unparse(x) for x in body[:4]] != HOPT_PRE[1]:
+        raise Untranslatable("get_hopt_table: signature / initialisation of the tables")
+    t = TabTr().block(body[4:], None)
+    return "\n".join(["(* GENERATED by harness/translate.py from checkpoint_schedules/hrevolve_sequences/hrevolve.py (get_hopt_table) -- do not edit *)",
+                      "From Coq Require Import ZArith List Bool.", "From CS Require Import Actions Ops HRevSeq HoptGenSpec.", "Import ListNotations.", "Open Scope Z_scope.", "",
+                      "Definition hopt_gen (lmax c0 c1 w0 w1 r0 r1 ub uf : Z) : res tabs :=",
+                      "  let T := {| optp0 := mk lmax c0; opt0 := mk lmax c0; optp1 := mk lmax c1; opt1 := mk lmax c1 |} in", "  " + t + ".", "",
+                      "Lemma hopt_gen_is_shape : hopt_gen = hopt_shape.", "Proof. reflexivity. Qed.",
+                      "Lemma hopt_gen_is_model : forall lmax c0 c1 w0 w1 r0 r1 ub uf, hopt_gen lmax c0 c1 w0 w1 r0 r1 ub uf = HRevSeq.get_hopt_table lmax c0 c1 w0 w1 r0 r1 ub uf.",
+                      "Proof. rewrite hopt_gen_is_shape. exact hopt_shape_is_model. Qed.", ""]) + "\n"
+
+
+GENERATORS["HoptGen"] = gen_hopt
+
+
+# ---- disk_revolve.py: get_opt_inf_table (one_read_disk = True): the Table is a list that only grows by append ----
+OPTINF_PRE = ("lmax, cm, uf, ub, rd, wd, one_read_disk, print_table=None, opt_0=None, opt_1d=None",
+              ["if opt_0 is None:\n    opt_0 = get_opt_0_table(lmax, cm, uf, ub)",
+               "if opt_1d is None and (not one_read_disk):\n    opt_1d = get_opt_1d_table(lmax, cm, ub, uf, rd, one_read_disk, opt_0=opt_0)",
+               "opt_inf = Table()", "if __name__ == '__main__' and print_table:\n    opt_inf.set_to_print(print_table)"])
+
+
+def gen_optinf(repo):
+    _check_seq_env(repo)          # one_read_disk is True in every call (revolver_parameters)
+    tree = ast.parse(open(os.path.join(repo, "checkpoint_schedules", "hrevolve_sequences", "disk_revolve.py")).read())
+    fns = [n for n in tree.body if isinstance(n, ast.FunctionDef) and n.name == "get_opt_inf_table"]
+    if len(fns) != 1 or fns[0].decorator_list:
+        raise Untranslatable("def get_opt_inf_table")
+    body = _strip_doc(fns[0].body)
+    if ast.unparse(fns[0].args) != OPTINF_PRE[0] or [ast.unparse(x) for x in body[:4]] != OPTINF_PRE[1]:
+        raise Untranslatable("get_opt_inf_table: signature / preamble")
+    tr = SeqTr("get_opt_inf_table", {"lmax": "lmax", "cm": "cm", "uf": "uf", "ub": "ub", "rd": "rd", "wd": "wd", "opt_0": "opt_0", "opt_inf": "opt_inf"}, {"one_read_disk": True})
+
+    def app(call, binds):
+        if not (isinstance(call, ast.Expr) and isinstance(call.value, ast.Call) and ast.unparse(call.value.func) == "opt_inf.append" and len(call.value.args) == 1 and not call.value.keywords):
+            raise Untranslatable("statement " + ast.unparse(call)[:80])
+        a = call.value.args[0]
+        if isinstance(a, ast.Call) and isinstance(a.func, ast.Name) and a.func.id == "min" and len(a.args) == 2 and not a.keywords:
+            x, y = tr.z(a.args[0], binds), tr.z(a.args[1], binds)
+            return "(Z.min %s %s)" % (x, y)
+        return tr.z(a, binds)
+
+    def block(stmts):
+        if not stmts:
+            return "Ok opt_inf"
+        s, rest = stmts[0], stmts[1:]
+        if isinstance(s, ast.Return):
+            if ast.unparse(s.value) != "opt_inf" or rest:
+                raise Untranslatable("return " + ast.unparse(s))
+            return "Ok opt_inf"
+        if isinstance(s, ast.If):
+            if isinstance(s.test, ast.Name) and s.test.id in tr.consts:
+                return block((s.body if tr.consts[s.test.id] else s.orelse) + rest)
+            binds = []
+            c = tr.cond(s.test, binds)
+            if binds or len(s.body) != 1 or len(s.orelse) != 1:
+                raise Untranslatable("if " + ast.unparse(s.test))
+            ba, bb = [], []
+            a, b = app(s.body[0], ba), app(s.orelse[0], bb)
+            if ba or bb:
+                raise Untranslatable("if " + ast.unparse(s.test))
+            return "let opt_inf := if %s then opt_inf ++ [%s] else opt_inf ++ [%s] in %s" % (c, a, b, block(rest))
+        if isinstance(s, ast.Assign) and len(s.targets) == 1 and isinstance(s.targets[0], ast.Name) and isinstance(s.value, ast.Call) and ast.unparse(s.value.func) == "min" \
+                and len(s.value.args) == 1 and isinstance(s.value.args[0], ast.ListComp):
+            # x = min([comprehension])
+            tmp = ast.Assign(targets=[ast.Name(id="cands_", ctx=ast.Store())], value=s.value.args[0])
+            x = s.targets[0].id
+            tr.names[x] = x
+            return tr.block([tmp], "do %s <- py_min cands_; %s" % (x, block(rest)))
+        if isinstance(s, ast.For) and not s.orelse and isinstance(s.target, ast.Name) and ast.unparse(s.iter.func) == "range" and len(s.iter.args) == 2:
+            binds = []
+            lo, hi = tr.z(s.iter.args[0], binds), tr.z(s.iter.args[1], binds)
+            v = s.target.id
+            tr.names[v] = v
+            body = block(s.body)
+            del tr.names[v]
+            return "do opt_inf <- range_for %s %s opt_inf (fun %s opt_inf => %s); %s" % (lo, hi, v, body, block(rest))
+        binds = []
+        v = app(s, binds)
+        return " ".join(binds + ["let opt_inf := opt_inf ++ [%s] in" % v, block(rest)])
+
+    t = block(body[4:])
+    return "\n".join(["(* GENERATED by harness/translate.py from checkpoint_schedules/hrevolve_sequences/disk_revolve.py (get_opt_inf_table) -- do not edit *)",
+                      "From Coq Require Import ZArith List Bool.", "From CS Require Import Actions Ops RevSeq HRevSeq SeqGenSpec OptInfGenSpec.", "Import ListNotations.", "Open Scope Z_scope.", "",
+                      "Definition optinf_gen (lmax cm uf ub rd wd : Z) (opt_0 : list (list Z)) : res (list Z) :=",
+                      "  let opt_inf : list Z := [] in", "  " + t + ".", "",
+                      "Lemma optinf_gen_is_shape : optinf_gen = optinf_shape.", "Proof. reflexivity. Qed.",
+                      "Lemma optinf_gen_is_model : forall lmax cm uf ub rd wd opt_0, optinf_gen lmax cm uf ub rd wd opt_0 = RevSeq.get_opt_inf_table lmax cm uf ub rd wd opt_0.",
+                      "Proof. rewrite optinf_gen_is_shape. exact optinf_shape_is_model. Qed.", ""]) + "\n"
+
+
+GENERATORS["OptInfGen"] = gen_optinf
+
+
+# ---- revolve.py: get_opt_0_table: opt is a list of Tables (rows) that only grow by append ----
+OPT0_PRE = ("lmax, mmax, uf, ub, print_table=None",
+            ["opt = [Table() for _ in range(mmax + 1)]", "if __name__ == '__main__' and print_table:\n    opt[mmax].set_to_print(print_table)"])
+
+
+class Opt0Tr:
+    def __init__(self):
+        self.names = {"lmax": "lmax", "mmax": "mmax", "uf": "uf", "ub": "ub"}
+        self.n = 0
+
+    def fresh(self):
+        self.n += 1
+        return "x%d_" % self.n
+
+    def z(self, e, binds):
+        if isinstance(e, ast.Constant) and type(e.value) is int:
+            return str(e.value) if e.value >= 0 else "(%d)" % e.value
+        if isinstance(e, ast.Name) and e.id in self.names:
+            return self.names[e.id]
+        if isinstance(e, ast.BinOp) and isinstance(e.op, ast.Div) and ast.unparse(e) == "l * (l + 1) / 2":
+            return "((l * (l + 1)) / 2)"
+        if isinstance(e, ast.BinOp) and isinstance(e.op, (ast.Add, ast.Sub, ast.Mult)):
+            a = self.z(e.left, binds)
+            b = self.z(e.right, binds)
+            return "(%s %s %s)" % (a, {ast.Add: "+", ast.Sub: "-", ast.Mult: "*"}[type(e.op)], b)
+        if isinstance(e, ast.Subscript) and isinstance(e.value, ast.Subscript) and isinstance(e.value.value, ast.Name) and e.value.value.id == "opt":
+            i, j = self.z(e.value.slice, binds), self.z(e.slice, binds)
+            x = self.fresh()
+            binds.append("do %s <- tget opt %s %s;" % (x, i, j))
+            return x
+        raise Untranslatable("integer expression " + ast.dump(e)[:100])
+
+    def block(self, stmts):
+        if not stmts:
+            return "Ok opt"
+        s, rest = stmts[0], stmts[1:]
+        if isinstance(s, ast.Return):
+            if ast.unparse(s.value) != "opt" or rest:
+                raise Untranslatable("return " + ast.unparse(s))
+            return "Ok opt"
+        if isinstance(s, ast.For) and not s.orelse and isinstance(s.target, ast.Name) and isinstance(s.iter, ast.Call) and ast.unparse(s.iter.func) == "range" and len(s.iter.args) in (1, 2):
+            binds = []
+            lo = "0" if len(s.iter.args) == 1 else self.z(s.iter.args[0], binds)
+            hi = self.z(s.iter.args[-1], binds)
+            if binds:
+                raise Untranslatable("range bounds")
+            v = s.target.id
+            old = self.names.get(v)
+            self.names[v] = v
+            body = self.block(s.body)
+            if old is None:
+                del self.names[v]
+            else:
+                self.names[v] = old
+            return "do opt <- range_for %s %s opt (fun %s opt => %s); %s" % (lo, hi, v, body, self.block(rest))
+        if isinstance(s, ast.If) and not s.orelse and isinstance(s.test, ast.Compare) and len(s.test.ops) == 1 and isinstance(s.test.ops[0], ast.GtE):
+            binds = []
+            a, b = self.z(s.test.left, binds), self.z(s.test.comparators[0], binds)
+            if binds:
+                raise Untranslatable("condition")
+            return "do opt <- (if (%s >=? %s) then (%s) else Ok opt); %s" % (a, b, self.block(s.body), self.block(rest))
+        if isinstance(s, ast.Assign) and len(s.targets) == 1 and isinstance(s.targets[0], ast.Name) and isinstance(s.value, ast.Call) and ast.unparse(s.value.func) == "min" \
+                and len(s.value.args) == 1 and isinstance(s.value.args[0], ast.ListComp):
+            v = s.value.args[0]
+            g = v.generators[0]
+            if len(v.generators) != 1 or g.ifs or not isinstance(g.target, ast.Name) or not (isinstance(g.iter, ast.Call) and ast.unparse(g.iter.func) == "range" and len(g.iter.args) == 2):
+                raise Untranslatable("comprehension " + ast.unparse(v))
+            binds = []
+            lo, hi = self.z(g.iter.args[0], binds), self.z(g.iter.args[1], binds)
+            if binds:
+                raise Untranslatable("range bounds")
+            self.names[g.target.id] = g.target.id
+            inner = []
+            body = self.z(v.elt, inner)
+            del self.names[g.target.id]
+            x = s.targets[0].id
+            self.names[x] = x
+            return "do cands_ <- map_res (fun %s => %s Ok %s) (zrange %s %s); do %s <- py_min cands_; %s" % (g.target.id, " ".join(inner), body, lo, hi, x, self.block(rest))
+        if isinstance(s, ast.Expr) and isinstance(s.value, ast.Call) and isinstance(s.value.func, ast.Attribute) and s.value.func.attr == "append" and len(s.value.args) == 1 and not s.value.keywords \
+                and isinstance(s.value.func.value, ast.Subscript) and isinstance(s.value.func.value.value, ast.Name) and s.value.func.value.value.id == "opt":
+            binds = []
+            i = self.z(s.value.func.value.slice, binds)
+            v = self.z(s.value.args[0], binds)
+            return " ".join(binds + ["do opt <- row_append opt %s %s;" % (i, v), self.block(rest)])
+        raise Untranslatable("statement " + ast.dump(s)[:100])
+
+
+def gen_opt0(repo):
+    tree = ast.parse(open(os.path.join(repo, "checkpoint_schedules", "hrevolve_sequences", "revolve.py")).read())
+    fns = [n for n in tree.body if isinstance(n, ast.FunctionDef) and n.name == "get_opt_0_table"]
+    if len(fns) != 1 or fns[0].decorator_list:
+        raise Untranslatable("def get_opt_0_table")
+    body = _strip_doc(fns[0].body)
+    if ast.unparse(fns[0].args) != OPT0_PRE[0] or [ast.unparse(x) for x in body[:2]] != OPT0_PRE[1]:
+        raise Untranslatable("get_opt_0_table: signature / creation of the tables")
+    t = Opt0Tr().block(body[2:])
+    return "\n".join(["(* GENERATED by harness/translate.py from checkpoint_schedules/hrevolve_sequences/revolve.py (get_opt_0_table) -- do not edit *)",
+                      "From Coq Require Import ZArith List Bool.", "From CS Require Import Actions Ops RevSeq HRevSeq SeqGenSpec Opt0GenSpec.", "Import ListNotations.", "Open Scope Z_scope.", "",
+                      "Definition opt0_gen (lmax mmax uf ub : Z) : res (list (list Z)) :=",
+                      "  let opt : list (list Z) := repeat [] (Z.to_nat (mmax + 1)) in", "  " + t + ".", "",
+                      "Lemma opt0_gen_is_shape : opt0_gen = opt0_shape.", "Proof. reflexivity. Qed.",
+                      "Lemma opt0_gen_is_model : forall lmax mmax uf ub, 0 <= mmax -> opt0_gen lmax mmax uf ub = RevSeq.get_opt_0_table lmax mmax uf ub.",
+                      "Proof. rewrite opt0_gen_is_shape. exact opt0_shape_is_model. Qed.", ""]) + "\n"
+
+
+GENERATORS["Opt0Gen"] = gen_opt0
+
+
 def gen_seq(repo):
     _check_seq_env(repo)
     rv = SeqTr("revolve", {"l": "l", "cm": "cm", "opt_0": "opt_0", "parameters.uf": "uf"}, {}).block(_seq_function(repo, "revolve", "revolve"), None)
